@@ -1,5 +1,7 @@
 mod charsdump;
 mod mtrace;
+mod ptrace;
+mod utrace;
 mod universe;
 
 use std::collections::HashMap;
@@ -26,6 +28,8 @@ fn main() {
     match cmd.as_str() {
         "chardb" => universe::write_chardb(&universe, &get("out", "/verif/work/chardb.ndjson")),
         "chars-dump" => charsdump::run(&get("out", "/verif/work/charsdump.ndjson")),
+        "pattern-trace" => ptrace::run(&get("tier", "quick"), get("seed", "1").parse().unwrap(), get("shards", "8").parse().unwrap(), &get("out", "/verif/work/ptrace")),
+        "utf32-trace" => utrace::run(&get("tier", "quick"), get("seed", "1").parse().unwrap(), get("shards", "8").parse().unwrap(), &get("out", "/verif/work/utrace")),
         "matcher-trace" => {
             let plan = mtrace::Plan {
                 tier: get("tier", "quick"),
